@@ -37,24 +37,30 @@ import (
 func init() {
 	hx.Register(&hx.Prop{
 		ID: "C06",
-		Rule: "exhaustive: (A) every set of ≤3 declared media-type keys out of 9 (exact, with parameters, type/*, */*, no-slash) × 16 Content-Type texts × accept/reject schema patterns × required; " +
+		Rule: "exhaustive: (A) every set of ≤3 declared media-type keys out of 10 (exact, with one and with two parameters, type/*, */*, no-slash) × 23 Content-Type texts (also several ';' segments, empty segments) × accept/reject schema patterns × required; " +
 			"(B) object schemas with a readOnly/nullable/typed property, a writeOnly property, every required subset, additionalProperties nil/true/false × 16 object values × ExcludeReadOnlyValidations; " +
 			"(B2) the same features declared inside a member of allOf/anyOf/oneOf (× member/top-level required × 4 member layouts × 16 values × the option), not, nested compositions, null against compositions; " +
 			"blank and white-space padded bodies × 9 content-type situations × required; " +
 			"(C) urlencoded: 2 properties of every primitive/array type × 7 field texts each × nullable/required × encodings; (C2) properties declared inside allOf/anyOf/oneOf members (also nested, also twice) × 5 encodings × 6 texts; " +
-			"(C3) property schemas that are compositions themselves × 8 field situations; (D) multipart part lists, also against allOf schemas; " +
-			"then a seeded random stream of nested schemas with compositions × schema-directed values (valid and mutated) × JSON renderings (whitespace, duplicate keys, trailing data, blank) × raw/malformed bodies × media-type sets × headers (also a second header value) × MultiError. " +
-			"A case is non-trivial when the model reports at least one non-default branch (selection level, decoder, outcome class, read-only handling, composition keywords, value shape).",
+			"(C3) property schemas that are compositions themselves × 8 field situations; (D) multipart part lists (JSON, plain, YAML, CSV, binary parts, content types with several parameters), also against allOf schemas and with per-property encodings (contentType, style); " +
+			"(F) YAML (21 texts × 3 content types × 3 keys × 6 schemas × options) and CSV bodies (10 texts × 3 × 3 × 5); " +
+			"(E) default-setting: one object schema with property a ∈ {plain, readOnly, writeOnly} × type × default (none / integer / string) × nullable, b with/without default, every required subset, additionalProperties × 8 values × ExcludeReadOnlyValidations × SkipSettingDefaults; (E1b) minProperties × maxProperties × defaults; " +
+			"(E2) defaults inside allOf/anyOf/oneOf members × 7 sibling members (require / forbid / re-declare read-only / additionalProperties false …) × 3 top levels × 5 values × both options; (E3) nested defaults (object defaults completed by their own defaults, items, defaults carrying read-only members, defaults on composition-valued properties) × 17 values; " +
+			"(E4) defaults under media types without body encoder (urlencoded, multipart, text/plain, octet-stream) and under the six JSON media types; " +
+			"then a seeded random stream of nested schemas with compositions, defaults (conforming and not) and property counts × schema-directed values (valid and mutated) × JSON renderings (whitespace, duplicate keys, trailing data, blank) × raw/malformed bodies × media-type sets × headers (also a second header value, several parameters) × MultiError × SkipSettingDefaults. " +
+			"A case is non-trivial when the model reports at least one non-default branch (selection level, decoder, outcome class, read-only handling, composition keywords, default handling, value shape).",
 		Exhaustive: true,
 		Gen:        genC06,
 		Run:        runC06,
 		Compare:    cmpC06,
 		Shrink:     shrinkC06,
 		Assumptions: []string{
-			"schemas range over the fragment type/nullable/readOnly/writeOnly/minLength/maximum/properties/required/additionalProperties(bool)/items/not/oneOf/anyOf/allOf (no discriminator, no default); the full validator is property C01",
+			"schemas range over the fragment type/nullable/readOnly/writeOnly/minLength/maximum/properties/required/additionalProperties(bool)/items/not/oneOf/anyOf/allOf/minProperties/maxProperties/default (no discriminator); the full validator is property C01",
 			"numbers in bodies are integers |n| ≤ 10^6 and n+0.5 (exact in float64); number texts in forms are decimal [+-]digits or [+-]digits.5 without leading zeros, or non-numeric",
-			"encoding/json, net/url.ParseQuery, mime and mime/multipart are trusted: what they make of the body text is an input of the model",
-			"array properties of form bodies carry items; per-property styles only form/spaceDelimited/pipeDelimited on arrays; object-typed properties inside composition members of a form schema, one name declared as integer and as number, YAML/CSV/zip decoders and nested form parts are outside the model and not generated",
+			"encoding/json, net/url.ParseQuery, mime, mime/multipart, yaml3 and encoding/csv are trusted: what they make of the body text is an input of the model; YAML texts stay inside the JSON data model (no timestamps, no non-string keys)",
+			"array properties of form bodies carry items; per-property styles only form/spaceDelimited/pipeDelimited on arrays; object-typed properties inside composition members of a form schema, one name declared as integer and as number, the zip decoder and form decoders nested inside multipart parts are outside the model and not generated",
+			"defaults below `not` (the partial mutations of the failing visit stay in the value) and, under a media type without body encoder, defaults at nesting depth ≥ 2 that fire are outside the model and not generated",
+			"where a default decides the verdict (caseNeutral false) the verdict is the one of the completed value (C13): only implementation vs model is compared there",
 		},
 	})
 }
